@@ -329,7 +329,7 @@ PROPS = {
              "are outside the model; derekparker/trie is modelled as a set of strings with prefix search.",
         coq_files=["Diffs/GnmiDiff", "Diffs/GnmiDiffProofs", "Corr/GnmiDiffCorr"],
         streams=[dict(name="gdiff", n=N(600, 4000))],
-        signatures=["refl", "swap", "json-vs-leaves", "prefix-split", "reorder", "leaf-replace-vs-update", "dup", "panic"],
+        signatures=["refl", "swap", "json-vs-leaves", "json-split", "prefix-split", "reorder", "leaf-replace-vs-update", "dup", "panic"],
         trusted=["gd_oracle tables (FormatFloat 'f', %g) written by the harness with strconv/fmt",
                  "the structured reading gd_sleaves of an RFC 7951 tree (specification side of c22_json_vs_leaves_*)"],
         partial="c22_prefix_split needs element names that do not end in '/'; c22_leaf_replace_vs_update needs that no later replace has the same "
